@@ -42,6 +42,13 @@ def _units(tier):
         [['%include', 1, 'a', 1]],
         [[1, '%define', 1, 'a b']],
         [['<a>'], ['%define', 1, 'a b'], ['</a>'], ['k $a']],
+        # any character in the MIDDLE of a value (form feed, NEL, LINE SEPARATOR, ... are not line ends for the
+        # reader) at nesting depth 2 and 3; any character in front of a key on a line that is not the first
+        [['<a>'], ['<b>'], ['k p', 1, 'q'], ['</b>'], ['</a>']],
+        [['<a>'], ['<b>'], ['<c>'], [1, ' ', 1, 'q'], ['</c>'], ['</b>'], ['</a>']],
+        [['# c'], [1, 'k v']],
+        [[''], [1, '<s>'], ['</s>']],
+        [['<s>'], ['</s>'], [1, 'k v']],
     ]
     if tier != 'quick':
         T += [
